@@ -830,6 +830,20 @@ def _generation_id(ctx):
     mod = ctx.index.module('treadmill.appcfg')
     func = mod.functions.get('gen_uniqueid')
     ctx.require(func is not None, 'appcfg.gen_uniqueid')
+    # the id is read from the file as it is now, at every call: the same
+    # path names another generation once the instance was evicted and
+    # placed again, so neither routine may answer from a memo keyed by path
+    for fname in ('gen_uniqueid', 'eventfile_unique_name'):
+        fobj = mod.functions.get(fname)
+        if fobj is None:
+            continue
+        memo = [N.txt(d) for d in fobj.decorators()
+                if any(w in N.txt(d).lower()
+                       for w in ('cache', 'memo', 'lru'))]
+        ctx.ob('C13.1', fobj, None, not memo,
+               '%s is evaluated on every call (no memoising decorator%s)'
+               % (fname, ': %s' % memo if memo else ''),
+               construct='%s not memoised' % fname)
     defs = {}
     for sub in K.walk_no_nested(func.node):
         tgt = None
